@@ -40,9 +40,13 @@ def model_runs(run, wd, tier):
     run.extra["negative_control"] = "EGCache with Rule=\"today\" violates CacheCoherent as required"
 
 
-def run_cached_config(run, name, consts, wd, spec, variant):
+def run_cached_config(run, name, consts, wd, spec, variant, builders=False):
     t0 = time.time()
-    gen = ST.generate(name, consts, wd)
+    if builders:
+        from . import checks_build
+        gen = checks_build.gen(name, consts, wd, lemmas=False, workers=1, emit=True)
+    else:
+        gen = ST.generate(name, consts, wd)
     run.add_model(f"{name}[{variant}]", gen, {k: (sorted(v) if isinstance(v, set) else v) for k, v in consts.items()})
     index = gen.pop("index")
     init = ST.base_state(consts)
@@ -140,6 +144,11 @@ def c05(tier, seed, wd, replay=None):
     if full:
         run_cached_config(run, "links-2x2-DT-fullkeys", ST.cfg("x", Kinds={"D", "T"}, MaxEnds=2)[1], wd,
                           {"kind": "C05", "full": True}, "on")
+    # the adjacency builders as mutators: memos warm, then load_adj_dict / load_adj_matrix over the same vertices
+    from . import checks_build
+    bc = checks_build.bcfg("builders-3v", PreDepth=1, MaxKeys=2 if full else 1, MaxVals=2, MaxSide=2 if full else 1,
+                           MaxRows=2, MaxRowLen=2, BKinds={"D", "U"} if full else {"D"})
+    run_cached_config(run, bc[0], bc[1], wd, spec, "sampled" if tier == "quick" else "on", builders=True)
     from . import cache_traces as CT
     CT.check(run, wd, tier, seed)
     run.exhaustive = True
@@ -150,7 +159,7 @@ def c05(tier, seed, wd, replay=None):
                  lambda c: c.startswith("lunl:") and "|on" in c,
                  lambda c: c.startswith("ladd:"),
                  lambda c: c.startswith("unlink:"),
-                 lambda c: c.startswith("trace:toggle")]
+                 lambda c: c.startswith("trace:toggle"), lambda c: c.startswith("loaddict"), lambda c: c.startswith("loadmat")]
     return run.finish(nontrivial_filter=lambda c: True, mandatory=mandatory)
 
 
